@@ -148,6 +148,9 @@ pub fn case(tape: &[u32]) -> CaseOutcome {
     } else if t.chance(1, 10) {
         // syntax errors that show only as MISSING tokens
         source = pysrc::MISSING_ONLY[t.choose(pysrc::MISSING_ONLY.len())].to_string();
+    } else if t.chance(1, 12) {
+        // the whole tree is one ERROR node
+        source = pysrc::ROOT_ERROR[t.choose(pysrc::ROOT_ERROR.len())].to_string();
     }
     // line endings and the end of the file belong to the source as well
     match t.choose(8) {
